@@ -958,6 +958,43 @@ func runC17(c *core.Ctx) {
 	c.Rule("C17.putstores", putStoresText, 2)
 	checkPutStores(c, []struct{ rel, typ string }{{"storage/memstore", "Store"}, {"linking/cid", "Memory"}})
 
+	c.Rule("C17.commitkey", "the link system ends a write with the link's own key and nothing else: in package linking, every call of the committer that storage.PutStream handed out passes a key that derives from Link.Binary() - never a constant (the empty key is the streaming API's abort signal, and the emulated committer of a Put-only store turns it into a put under the empty key)", 1)
+	for _, fn := range p.ModFns {
+		pk := core.FuncPkg(fn)
+		if pk == nil || core.RelPkg(pk.Path()) != "linking" || len(fn.Blocks) == 0 || fn.Synthetic != "" {
+			continue
+		}
+		rg := core.RegionOf(fn)
+		n := 0
+		for _, ci := range core.Calls(fn) {
+			cc := ci.Common()
+			if cc.IsInvoke() || cc.StaticCallee() != nil || len(cc.Args) != 1 {
+				continue
+			}
+			// the called value is result 1 of storage.PutStream (possibly captured by the committer closure)
+			isCommitter := false
+			for w := range core.BackSlice(cc.Value, core.SliceOpts{Stores: true, Region: rg}) {
+				if ex, ok := w.(*ssa.Extract); ok && ex.Index == 1 {
+					if cl, ok := ex.Tuple.(*ssa.Call); ok && core.IsPkgFunc(cl, core.ModPath+"/storage", "PutStream") {
+						isCommitter = true
+					}
+				}
+			}
+			if !isCommitter {
+				continue
+			}
+			n++
+			fromBinary := false
+			for w := range core.BackSlice(cc.Args[0], core.SliceOpts{Stores: true, Region: rg}) {
+				if cl, ok := w.(*ssa.Call); ok && cl.Call.IsInvoke() && cl.Call.Method.Name() == "Binary" {
+					fromBinary = true
+				}
+			}
+			_, isConst := core.Strip(cc.Args[0]).(*ssa.Const)
+			c.Check(fromBinary && !isConst, fmt.Sprintf("%s#commit-key%d", core.FuncKey(fn), n), p.Pos(ci.Pos()), "the committer is given the link's binary key", "the storage committer is called with a key that is not the link's Binary() (a constant, the empty abort key): a store that emulates streaming on top of Put stores the buffered bytes under that key - a block nobody put appears in the store")
+		}
+	}
+
 	c.Rule("C17.noretain", "memstore.Store and cidlink.Memory never place a caller-provided slice into their bag (the stored value derives from a fresh make/buffer of the store's own), and Get returns a fresh copy, not the stored slice", 3)
 	for _, spec := range []struct{ rel, typ string }{{"storage/memstore", "Store"}, {"linking/cid", "Memory"}} {
 		for _, fn := range p.ModFns {
